@@ -1,6 +1,7 @@
 mod checks;
 mod corpus;
 mod dynval;
+mod framing;
 mod record;
 mod rt;
 
